@@ -137,7 +137,23 @@ func genHistory(r *gen.Rand) (nser, nwal int, ops []Op) {
 			}
 			ops = append(ops, Op{K: "W", Rows: rows})
 		case k < 9:
-			ops = append(ops, Op{K: "F"})
+			if r.Chance(1, 2) {
+				// a flush that is paused after the log switch / memtable swap while more writes are acknowledged:
+				// two WAL epochs are live until the flush finishes
+				ops = append(ops, Op{K: "FB"})
+				s, t := r.Intn(nser), r.Range(max(0, now-1), now)
+				for i := 0; i < r.Range(1, 3); i++ {
+					if r.Chance(1, 2) {
+						ops = append(ops, Op{K: "W", Rows: []tsdrv.Row{{S: s, T: t, F: []tsdrv.FV{{F: 0, V: val}}}}})
+						val++
+					} else {
+						ops = append(ops, Op{K: "W", Rows: []tsdrv.Row{mkRow()}})
+					}
+				}
+				ops = append(ops, Op{K: "FE"})
+			} else {
+				ops = append(ops, Op{K: "F"})
+			}
 		default:
 			// burst of single-point writes (fills WAL partitions unevenly before a switch), flush, overwrites
 			m := r.Range(1, 2*nwal)
@@ -267,6 +283,7 @@ func runHistory(idx int, work string, nser, nwal int, ops []Op, r *gen.Rand, rec
 	walEpoch := map[string]int{}
 	cur, acked := 0, 0
 	inWrite := false
+	paused := false
 	rel := func(p string) string { x, _ := filepath.Rel(dir, p); return x }
 	isWal := func(p string) bool { return strings.HasPrefix(rel(p), "wal"+string(os.PathSeparator)) }
 	take := func(at string, inflight, torn int, ev *crashfs.Event, force bool) {
@@ -296,7 +313,21 @@ func runHistory(idx int, work string, nser, nwal int, ops []Op, r *gen.Rand, rec
 		}
 		return -1
 	}
+	// one write op per history always gets the header-only torn image (5 bytes = type + length, no payload)
+	var wops []int
+	for i := range ops {
+		if ops[i].K == "W" && i > 0 {
+			wops = append(wops, i)
+		}
+	}
+	hdrOp := -1
+	if len(wops) > 0 {
+		hdrOp = wops[r.Intn(len(wops))]
+	}
 	rec.Start(dir, func(ev *crashfs.Event) {
+		if ev.Kind == "write" && isWal(ev.Path) && inWrite && cur == hdrOp && len(ev.Data) > 5 {
+			take(fmt.Sprintf("torn wal append %d/%d", 5, len(ev.Data)), cur, 5, ev, true)
+		}
 		if ev.Kind == "write" && isWal(ev.Path) && inWrite && ch(1, 4) {
 			n := len(ev.Data)
 			cuts := []int{r.Intn(n)}
@@ -382,10 +413,29 @@ func runHistory(idx int, work string, nser, nwal int, ops []Op, r *gen.Rand, rec
 				cur = i + 1
 				rec.Locked(func() { take("after acknowledgement of op "+strconv.Itoa(i), -1, -1, nil, i == len(ops)-1) })
 			}
-		case "F":
-			sh.V.ForceFlush()
+		case "FB":
+			if sh.V.BeginPausedFlush() {
+				paused = true
+				epoch++
+			}
 			acked = i + 1
-			epoch++
+		case "FE", "F":
+			if op.K == "FE" {
+				if !paused {
+					acked = i + 1
+					continue
+				}
+				sh.V.FinishPausedFlush()
+				paused = false
+			} else {
+				if paused {
+					sh.V.FinishPausedFlush()
+					paused = false
+				}
+				sh.V.ForceFlush()
+				epoch++
+			}
+			acked = i + 1
 			h.Flags.Flushes++
 			for s, t := range memMax {
 				if ft, ok := flushedMax[s]; !ok || t > ft {
@@ -394,6 +444,9 @@ func runHistory(idx int, work string, nser, nwal int, ops []Op, r *gen.Rand, rec
 			}
 			memMax = map[int]int{}
 		}
+	}
+	if paused {
+		sh.V.FinishPausedFlush()
 	}
 	rec.Stop()
 	_ = sh.Close()
@@ -504,9 +557,13 @@ func runHistory(idx int, work string, nser, nwal int, ops []Op, r *gen.Rand, rec
 			return
 		}
 		if im.Inflight >= 0 {
-			if d2 := diff(expect(im.Acked, im.Inflight)); len(d2) == 0 {
+			d2 := diff(expect(im.Acked, im.Inflight))
+			if len(d2) == 0 {
 				im.Match = "acked+inflight"
 				return
+			}
+			if len(d2) < len(d1) {
+				d1 = d2 // report the difference against the closer of the two allowed states
 			}
 		}
 		im.Diff = d1
